@@ -137,7 +137,7 @@ def _rs_main(m, masked=False, mean=False):
             f"forall(k, 0, ngroups, forall(j, 0, window, implies(idx(j, group_positions[k], {A}, window) >= 0, group_buffers[k, j] == HistF(k, idx(j, group_positions[k], {A}, window))) and implies(idx(j, group_positions[k], {A}, window) < 0, isnull(group_buffers[k, j]))))",
             f"forall(k, 0, ngroups, group_non_null[k] == NNc(k, {A}) - NNc(k, lo({A}, window)) and group_sums[k] == mkfin(Pre(k, {A}) - Pre(k, lo({A}, window))))",
             f"forall(r, 0, {m}, implies(group_key[r] < 0 or not {acc('r')}, isnull(out[r])))",
-            f"forall(r, 0, {m}, implies(group_key[r] >= 0 and {acc('r')}, out[r] == ite({nn} >= min_periods, {val}, NaN())))",
+            f"forall(r, 0, {m}, implies(group_key[r] >= 0 and {acc('r')}, out[r] == ite({nn} >= min_periods{f' and {nn} > 0' if mean else ''}, {val}, NaN())))",
             f"forall(r, {m}, len(out), isnull(out[r]))"]
 def _roll_unf(masked, full=True):
     K = "group_key[i + 1]"; A = "Cnt(group_key[i + 1], i + 1)"; acc = _roll_acc(masked); a = f"{K} >= 0 and {acc('i + 1')}"
@@ -155,7 +155,7 @@ def _roll_unf(masked, full=True):
         f"implies({a} and {A} >= window, 0 <= NNc({K}, {A}) - NNc({K}, {A} - window + 1) and NNc({K}, {A}) - NNc({K}, {A} - window + 1) <= window - 1)"]
 ROLL_UNF = _roll_unf(False)
 def _roll_requires(masked, mp):
-    return ["window >= 1", "window <= 32767", "ngroups >= 0", "isnull(null_value)"] + (["min_periods >= 1"] if mp else []) + (["len(mask) == len(group_key)"] if masked else []) + _CHUNK_REQ + [
+    return ["window >= 1", "window <= 32767", "ngroups >= 0", "isnull(null_value)"] + (["min_periods >= 0"] if mp else []) + (["len(mask) == len(group_key)"] if masked else []) + _CHUNK_REQ + [
         "forall(c, 0, len(values), forall(p, 0, clen_values(c), chunkval(c, p) == X(off(c) + p)))",
         "forall(r, 0, len(group_key), group_key[r] < ngroups)", "forall(k, 0, ngroups, Cnt(k, 0) == 0 and NNc(k, 0) == 0 and Pre(k, 0) == 0)"]
 for _mean, _m, _mp in ((False, False, False), (True, False, False), (False, True, True), (True, True, True)):
@@ -166,9 +166,9 @@ for _mean, _m, _mp in ((False, False, False), (True, False, False), (False, True
               "frozen": ["group_key"] + (["mask"] if _m else []), "nonneg_index": ["group_sums", "group_buffers", "group_positions", "group_non_null", "group_n_seen"],
               # the conjuncts about rows of `out` already written (3 + j, 4 + j) are hypotheses only for their own preservation: nothing else depends on past outputs,
               # and the mean's quotient inside them would drag non-linear arithmetic into every other obligation
-              "loops": {0: {"iter": "values", "invariant": ["i == off(_it0) - 1", "_it0 <= len(values)", "min_periods >= 1"] + _rs_main("(i + 1)", _m, _mean),
+              "loops": {0: {"iter": "values", "invariant": ["i == off(_it0) - 1", "_it0 <= len(values)", "min_periods >= 0"] + _rs_main("(i + 1)", _m, _mean),
                             "self_only": {6: [(0, 6), (1, 7)], 7: [(0, 7), (1, 8)]}},
-                        1: {"iter": "arr", "invariant": ["i == off(_it0) + _it1 - 1", "_it0 < len(values)", "_it1 <= clen_values(_it0)", "min_periods >= 1"] + _rs_main("(i + 1)", _m, _mean),
+                        1: {"iter": "arr", "invariant": ["i == off(_it0) + _it1 - 1", "_it0 < len(values)", "_it1 <= clen_values(_it0)", "min_periods >= 0"] + _rs_main("(i + 1)", _m, _mean),
                             "self_only": {7: [(0, 6), (1, 7)], 8: [(0, 7), (1, 8)]},
                             "unfold": _roll_unf(_m), "lemmas": ["val == X(i + 1)"]}},
               "ensures": [x.replace("out[", "result[") for x in _rs_main("len(group_key)", _m, _mean)[3:5]]},
